@@ -1,6 +1,6 @@
 (* C15 - Frame dtype does not matter. *)
 From Coq Require Import ZArith List.
-From BF Require Import Base.Util Model.Prelog Model.Pipeline Proofs.PipelineP.
+From BF Require Import Base.Util Model.Prelog Model.Pipeline Model.Dtype Proofs.PipelineP Proofs.DtypeP.
 Import ListNotations.
 Open Scope Z_scope.
 
@@ -18,3 +18,20 @@ Print Assumptions C15_legacy_uint8_wraps_refuted.
 Theorem C15_legacy_int16_wraps_refuted : prelog_code false (DInt 16 true) [[-32768; 32767]] <> prelog_exact [[-32768; 32767]].
 Proof. exact prelog_unpromoted_wraps_i16. Qed.
 Print Assumptions C15_legacy_int16_wraps_refuted.
+
+(* the buffer dtype np.result_type(d, float32) (float32 for 8/16-bit, float64 for 32-bit integer frames) represents every pixel
+   value and every argument x - min + 1 of the logarithm exactly: nothing is lost before the logarithm is taken *)
+Theorem C15_promoted_buffer_holds_every_value : forall d bits sg v, d = NInt bits sg -> (bits = 8 \/ bits = 16 \/ bits = 32) ->
+  in_range d v -> exact_in (result_type_f32 d) v.
+Proof. exact promotion_holds_values. Qed.
+Print Assumptions C15_promoted_buffer_holds_every_value.
+
+Theorem C15_promoted_buffer_holds_log_arguments : forall d bits sg v m, d = NInt bits sg -> (bits = 8 \/ bits = 16 \/ bits = 32) ->
+  in_range d v -> in_range d m -> m <= v -> exact_in (result_type_f32 d) (v - m + 1).
+Proof. exact promotion_holds_log_arguments. Qed.
+Print Assumptions C15_promoted_buffer_holds_log_arguments.
+
+(* and float32 buffers for 32-bit integer frames would not do *)
+Theorem C15_float32_cannot_hold_int32 : in_range (NInt 32 true) (2 ^ 24 + 1) /\ ~ exact_in (NFloat 32) (2 ^ 24 + 1).
+Proof. exact float32_cannot_hold_int32. Qed.
+Print Assumptions C15_float32_cannot_hold_int32.
